@@ -17,8 +17,18 @@
      serial.unpack <T> <hex>       -> ok <V> <position> | err      (target: value-initialised)
      serial.unpackinto <T> <V> <hex> -> ok <V> <position> | err    (target given)
      serial.fresh <T> <V>          -> 0|1
+
+  Pointer layer (Model/SerialGraph.lean): descriptor P(T) = shared_ptr<T>; values  n  null,
+  &<hex address>(V) non-null pointer.  Results are printed with the addresses replaced by labels
+  1,2,.. in order of first occurrence (pre-order; entries of unordered maps in the order of their
+  key text), because the addresses of the objects `make_shared` returns are not predictable:
+     serial.gconsts                  -> sizeof(uintptr_t)
+     serial.gpack <T> <V>            -> wt=<0|1> <PACKSIZE> <hex of PACK>    (wt: well typed AND one heap)
+     serial.gunpack <T> <hex>        -> ok <V with labels> <position> | err
+     serial.gunpackinto <T> <V> <hex> -> ok <V with labels> <position> | err
 -/
 import OpmVerif.Model.Serial
+import OpmVerif.Model.SerialGraph
 -- driver: prefix=serial handler=OpmVerif.Serial.handle
 
 namespace OpmVerif.Serial
@@ -156,6 +166,256 @@ def showUnpack (t : Ty) (total : Nat) : Except Err (Val × Bytes) → String
   | .error _ => "err"
   | .ok (v, rest) => "ok " ++ showCanon t v ++ " " ++ toString (total - rest.length)
 
+
+/-! ### pointer layer -/
+
+def natOfHex (ds : List Char) : Nat := ds.foldl (fun a c => a * 16 + (hexVal c).getD 0) 0
+
+def allFlat : List GTy → Option (List Ty)
+  | [] => some []
+  | .flat t :: r => (allFlat r).map (t :: ·)
+  | _ => none
+
+mutual
+partial def parseGTy : List Char → Option (GTy × List Char)
+  | 'P' :: '(' :: r => do
+      let (gs, r') ← parseGTys r
+      match gs with | [g] => pure (.sptr g, r') | _ => none
+  | 'o' :: '(' :: r => do
+      let (gs, r') ← parseGTys r
+      match gs with
+      | [.flat t] => pure (.flat (.opt t), r')
+      | [g] => pure (.opt g, r')
+      | _ => none
+  | 'v' :: '(' :: r => do
+      let (gs, r') ← parseGTys r
+      match gs with
+      | [.flat t] => pure (.flat (.vec t), r')
+      | [g] => pure (.vec g, r')
+      | _ => none
+  | 'u' :: '(' :: r => do
+      let (gs, r') ← parseGTys r
+      match gs with
+      | [.flat t] => pure (.flat (.uptr t), r')
+      | [g] => pure (.uptr g, r')
+      | _ => none
+  | 'a' :: r => do
+      let (d, r1) := takeDigits r
+      match r1 with
+      | '(' :: r2 =>
+        let (gs, r') ← parseGTys r2
+        match gs with
+        | [.flat t] => pure (.flat (.arr (natOf d) t), r')
+        | [g] => pure (.arr (natOf d) g, r')
+        | _ => none
+      | _ => none
+  | 'M' :: '(' :: r => do
+      let (gs, r') ← parseGTys r
+      match gs with
+      | [.flat k, .flat t] => pure (.flat (.map true k t), r')
+      | [.flat k, g] => pure (.map true k g, r')
+      | _ => none
+  | 'N' :: '(' :: r => do
+      let (gs, r') ← parseGTys r
+      match gs with
+      | [.flat k, .flat t] => pure (.flat (.map false k t), r')
+      | [.flat k, g] => pure (.map false k g, r')
+      | _ => none
+  | 't' :: '(' :: r => do
+      let (gs, r') ← parseGTys r
+      match allFlat gs with
+      | some ts => pure (.flat (.tup ts), r')
+      | none => pure (.struct gs, r')
+  | 'c' :: '(' :: r => do
+      let (gs, r') ← parseGTys r
+      match allFlat gs with
+      | some ts => pure (.flat (.struct ts), r')
+      | none => pure (.struct gs, r')
+  | cs => do let (t, r) ← parseTy cs; pure (.flat t, r)
+partial def parseGTys : List Char → Option (List GTy × List Char)
+  | ')' :: r => some ([], r)
+  | cs => do
+      let (t, r) ← parseGTy cs
+      match r with
+      | ',' :: r' => let (ts, r'') ← parseGTys r'; pure (t :: ts, r'')
+      | ')' :: r' => pure ([t], r')
+      | _ => none
+end
+
+mutual
+partial def parseG : GTy → List Char → Option (GVal × List Char)
+  | .flat _, cs => do let (v, r) ← parseVal cs; pure (.flat v, r)
+  | .sptr _, 'n' :: r => some (.null, r)
+  | .sptr t, '&' :: r => do
+      let (h, r1) := takeHex r
+      match r1 with
+      | '(' :: r2 =>
+        let (x, r3) ← parseG t r2
+        match r3 with
+        | ')' :: r4 => pure (.ptr (natOfHex h) x, r4)
+        | _ => none
+      | _ => none
+  | .opt _, 'n' :: r => some (.null, r)
+  | .opt t, 'j' :: '(' :: r => do
+      let (x, r1) ← parseG t r
+      match r1 with
+      | ')' :: r2 => pure (.some x, r2)
+      | _ => none
+  | .uptr _, 'n' :: r => some (.null, r)
+  | .uptr t, 'j' :: '(' :: r => do
+      let (x, r1) ← parseG t r
+      match r1 with
+      | ')' :: r2 => pure (.some x, r2)
+      | _ => none
+  | .vec t, '[' :: r => do let (vs, r') ← parseGList t r; pure (.list vs, r')
+  | .arr _ t, '[' :: r => do let (vs, r') ← parseGList t r; pure (.list vs, r')
+  | .map _ k w, '[' :: r => do let (vs, r') ← parseGEntries k w r; pure (.list vs, r')
+  | .struct ts, '[' :: r => do let (vs, r') ← parseGMembers ts r; pure (.list vs, r')
+  | _, _ => none
+partial def parseGList (t : GTy) : List Char → Option (List GVal × List Char)
+  | ']' :: r => some ([], r)
+  | cs => do
+      let (v, r) ← parseG t cs
+      match r with
+      | ',' :: r' => let (vs, r'') ← parseGList t r'; pure (v :: vs, r'')
+      | ']' :: r' => pure ([v], r')
+      | _ => none
+partial def parseGEntries (k : Ty) (w : GTy) : List Char → Option (List GVal × List Char)
+  | ']' :: r => some ([], r)
+  | '[' :: cs => do
+      let (x, r) ← parseVal cs
+      match r with
+      | ',' :: r1 =>
+        let (y, r2) ← parseG w r1
+        match r2 with
+        | ']' :: ',' :: r3 => let (vs, r4) ← parseGEntries k w r3; pure (.list [.flat x, y] :: vs, r4)
+        | ']' :: ']' :: r3 => pure ([.list [.flat x, y]], r3)
+        | _ => none
+      | _ => none
+  | _ => none
+partial def parseGMembers : List GTy → List Char → Option (List GVal × List Char)
+  | [], ']' :: r => some ([], r)
+  | [t], cs => do
+      let (v, r) ← parseG t cs
+      match r with
+      | ']' :: r' => pure ([v], r')
+      | _ => none
+  | t :: ts, cs => do
+      let (v, r) ← parseG t cs
+      match r with
+      | ',' :: r' => let (vs, r'') ← parseGMembers ts r'; pure (v :: vs, r'')
+      | _ => none
+  | _, _ => none
+end
+
+/-- label of an address: index of its first occurrence + 1 -/
+def labelOf (a : Nat) (tab : List Nat) : Nat × List Nat :=
+  match tab.idxOf? a with
+  | some i => (i + 1, tab)
+  | none => (tab.length + 1, tab ++ [a])
+
+def insertSorted (e : String × GVal) : List (String × GVal) → List (String × GVal)
+  | [] => [e]
+  | x :: xs => if e.1 < x.1 then e :: x :: xs else x :: insertSorted e xs
+
+mutual
+/-- canonical rendering: labels for addresses, entries of unordered maps in key-text order -/
+partial def showG : GTy → GVal → List Nat → String × List Nat
+  | .flat t, .flat v, tab => (showCanon t v, tab)
+  | .sptr t, .ptr a x, tab =>
+    let (l, tab1) := labelOf a tab
+    let (s, tab2) := showG t x tab1
+    ("&" ++ toString l ++ "(" ++ s ++ ")", tab2)
+  | .opt t, .some x, tab => let (s, tab1) := showG t x tab; ("j(" ++ s ++ ")", tab1)
+  | .uptr t, .some x, tab => let (s, tab1) := showG t x tab; ("j(" ++ s ++ ")", tab1)
+  | .vec t, .list vs, tab => let (ss, tab1) := showGList t vs tab; ("[" ++ ",".intercalate ss ++ "]", tab1)
+  | .arr _ t, .list vs, tab => let (ss, tab1) := showGList t vs tab; ("[" ++ ",".intercalate ss ++ "]", tab1)
+  | .map o k w, .list vs, tab =>
+    let keyed := vs.map fun e => (showCanon k (gflat (gfst e)), gsnd e)
+    let ordered := if o then keyed else keyed.foldl (fun acc e => insertSorted e acc) []
+    let (ss, tab1) := showGEntries w ordered tab
+    ("[" ++ ",".intercalate ss ++ "]", tab1)
+  | .struct ts, .list vs, tab => let (ss, tab1) := showGMembers ts vs tab; ("[" ++ ",".intercalate ss ++ "]", tab1)
+  | _, .null, tab => ("n", tab)
+  | _, _, tab => ("?", tab)
+partial def showGList (t : GTy) : List GVal → List Nat → List String × List Nat
+  | [], tab => ([], tab)
+  | v :: vs, tab => let (s, tab1) := showG t v tab; let (ss, tab2) := showGList t vs tab1; (s :: ss, tab2)
+partial def showGEntries (w : GTy) : List (String × GVal) → List Nat → List String × List Nat
+  | [], tab => ([], tab)
+  | (k, v) :: es, tab =>
+    let (s, tab1) := showG w v tab
+    let (ss, tab2) := showGEntries w es tab1
+    (("[" ++ k ++ "," ++ s ++ "]") :: ss, tab2)
+partial def showGMembers : List GTy → List GVal → List Nat → List String × List Nat
+  | t :: ts, v :: vs, tab => let (s, tab1) := showG t v tab; let (ss, tab2) := showGMembers ts vs tab1; (s :: ss, tab2)
+  | _, _, tab => ([], tab)
+end
+
+mutual
+partial def rawG : GVal → String
+  | .flat v => showVal v
+  | .null => "n"
+  | .ptr a x => "&" ++ toString a ++ "(" ++ rawG x ++ ")"
+  | .some x => "j(" ++ rawG x ++ ")"
+  | .list vs => "[" ++ ",".intercalate (vs.map rawG) ++ "]"
+/-- (address, pointee text) of every pointer -/
+partial def ptrPairs : GVal → List (Nat × String)
+  | .ptr a x => (a, rawG x) :: ptrPairs x
+  | .some x => ptrPairs x
+  | .list vs => (vs.map ptrPairs).flatten
+  | _ => []
+end
+
+/-- the object is a view of one heap: equal addresses show equal pointees -/
+def oneHeap (v : GVal) : Bool :=
+  let ps := ptrPairs v
+  ps.all fun p => ps.all fun q => p.1 != q.1 || p.2 == q.2
+
+def gtyOf (s : String) : Option GTy :=
+  match parseGTy s.toList with
+  | some (t, []) => some t
+  | _ => none
+
+def gvalOf (t : GTy) (s : String) : Option GVal :=
+  match parseG t s.toList with
+  | some (v, []) => some v
+  | _ => none
+
+def showGUnpack (t : GTy) (total : Nat) : Except Err (GVal × PtrMap × Bytes) → String
+  | .error _ => "err"
+  | .ok (v, _, rest) => "ok " ++ (showG t v []).1 ++ " " ++ toString (total - rest.length)
+
+/-- the addresses `make_shared` hands out during UNPACK: unknown, but different from every address in
+the buffer and in a stale target (those objects are alive) and different for different objects -/
+def newAddr (a : Nat) : Nat := a + 2 ^ 62
+
+def handleG (op : String) (args : List String) : String :=
+  match op, args with
+  | "serial.gconsts", [] => s!"{szPtr}"
+  | "serial.gpack", [ts, vs] =>
+    match gtyOf ts with
+    | some t =>
+      match gvalOf t vs with
+      | some v =>
+        let p := gpack t [] v
+        let z := gsize t [] v
+        "wt=" ++ (if gwt t v && oneHeap v && p.2 == z.2 then "1" else "0") ++ " " ++ toString z.1 ++ " " ++ hexOrDash p.1
+      | none => "bad-op"
+    | none => "bad-op"
+  | "serial.gunpack", [ts, hs] =>
+    match gtyOf ts, ofHex hs with
+    | some t, some bs => showGUnpack t bs.length (gunpack newAddr t (gdflt t) [] bs)
+    | _, _ => "bad-op"
+  | "serial.gunpackinto", [ts, vs, hs] =>
+    match gtyOf ts, ofHex hs with
+    | some t, some bs =>
+      match gvalOf t vs with
+      | some tgt => showGUnpack t bs.length (gunpack newAddr t tgt [] bs)
+      | none => "bad-op"
+    | _, _ => "bad-op"
+  | _, _ => "bad-op"
+
 def handle (op : String) (args : List String) : String :=
   match op, args with
   | "serial.consts", [] => s!"{szSizeT} {szInt} {szBool}"
@@ -176,6 +436,6 @@ def handle (op : String) (args : List String) : String :=
     match tyOf ts, valOf vs with
     | some t, some v => if fresh t v then "1" else "0"
     | _, _ => "bad-op"
-  | _, _ => "bad-op"
+  | _, _ => handleG op args
 
 end OpmVerif.Serial
